@@ -102,14 +102,16 @@ def content_equal_after_rewrite(a, b):
     return pc.diff(a, b)
 
 
-def rewrite(raw):
+def rewrite(raw, clear_between=False):
+    """read a legacy file, write it (v0.2), read that back — in one process, as a converter would"""
     from pose_format import Pose
     from pose_format.pose_header import PoseHeaderCache
     PoseHeaderCache.clear_cache()
     p = Pose.read(raw)
     buf = io.BytesIO()
     p.write(buf)
-    PoseHeaderCache.clear_cache()
+    if clear_between:
+        PoseHeaderCache.clear_cache()
     return buf.getvalue(), pc.canon_pose(Pose.read(buf.getvalue()))
 
 
@@ -149,7 +151,7 @@ def run(ctx):
             both(raw, {"start_frame": s, "end_frame": e}, "v0.1 window", slice_pose(dict(exp, body=dict(exp["body"], missing=[0] * len(exp["body"]["conf"]))), s, e), info)
         if F < 100:
             try:
-                raw2, back = rewrite(raw)
+                raw2, back = rewrite(raw, clear_between=rng.random() < 0.3)
                 d = content_equal_after_rewrite(exp, back)
                 if d:
                     ctx.violation("v0.1: re-written file does not read back to the same content", dict(info, hex=raw.hex() if len(raw) < 3000 else None), {"first_difference": d}, True, size=len(raw))
@@ -168,7 +170,7 @@ def run(ctx):
             both(raw, {}, "v0.0 full", exp, info)
             both(raw, {"start_frame": 1, "end_frame": 2}, "v0.0 window-ignored", None, info)
             try:
-                raw2, back = rewrite(raw)
+                raw2, back = rewrite(raw, clear_between=rng.random() < 0.3)
                 d = content_equal_after_rewrite(exp, back)
                 if d:
                     ctx.violation("v0.0: re-written file does not read back to the same content", dict(info, hex=raw.hex() if len(raw) < 3000 else None), {"first_difference": d}, True, size=len(raw))
@@ -176,6 +178,23 @@ def run(ctx):
                 ctx.violation("v0.0: decoded pose cannot be re-written", dict(info, hex=raw.hex() if len(raw) < 3000 else None), {"error": type(ex).__name__}, True, size=len(raw))
         else:
             both(raw, {}, "v0.0 irregular", None, info)
+    # v0.0 recordings larger than the 10 KiB prefetch, and reads with this header already cached
+    from pose_format.pose_header import PoseHeaderCache
+    for k in range(ctx.pick(4, 30)):
+        h, fps, frames = gen_v00(rng, True)
+        while pc.total_points(h) == 0:
+            h, fps, frames = gen_v00(rng, True)
+        frames = (frames * (12000 // max(1, len(refenc.v00(h, fps, frames))) + 2))[:65535]
+        raw = refenc.v00(h, fps, frames)
+        exp = v00_expected(h, fps, frames)
+        info = {"layout": "v0.0", "frames": len(frames), "file_bytes": len(raw)}
+        both(raw, {}, "v0.0 large", exp, info)
+        both(raw, {"start_frame": 1, "end_frame": 3}, "v0.0 large window-ignored", exp, info)
+        for reader in ("bytes", "stream"):
+            res = impl_read(raw, reader, {"start_frame": 0}, raw)                     # warm cache: this header was read just before
+            ctx.evaluated((raw, "warm", reader)); ctx.count(f"v0.0 warm:{reader}:{res[0]}")
+            if res[0] != "ok" or pc.diff(strip_missing(exp), strip_missing(res[1])):
+                ctx.violation("v0.0 warm cache: a valid legacy file is not decoded to the stored values", dict(info, reader=reader), {"result": res[0] if res[0] != "ok" else pc.diff(strip_missing(exp), strip_missing(res[1]))}, True, size=len(raw), signature={"tag": "v0.0 warm", "reader": reader})
     # ---- version dispatch
     base = pc.gen_pose(rng, frames=2, people=1, ncomps=1, same_format="XYC")
     while not pc.representable(base) or pc.total_points(base["header"]) == 0:
